@@ -15,11 +15,16 @@ import Chain33Model.Model.C01
 namespace C02
 open C01
 
-/-- `Store.MemSet`: an empty update records "reuse the parent" under the parent's hash; otherwise the
+/-- `Store.MemSet`: an empty update records "reuse the parent" under the parent's hash unless an entry exists; otherwise the
 new tree is hashed (`Tree.Hash`) and kept under its root hash, nothing is written. -/
 def memSet (H : Bytes → Bytes) (s : Store) (parent : Bytes) (bh : Nat) (kvs : List (Bytes × Bytes)) :
     Res Bytes × Store :=
-  if kvs.isEmpty then (.ok parent, { s with trees := storeTree s.trees parent none })
+  if kvs.isEmpty then
+    -- `trees.LoadOrStore(parentHash, nil)` (/repo e6adcc5): an entry that is already there — in particular the
+    -- pending tree of a parent that is itself still pending — is kept
+    (.ok parent, match lookupTree s.trees parent with
+      | some _ => s
+      | none => { s with trees := storeTree s.trees parent none })
   else
     match s.loadRoot parent with
     | (.notfound, s) => (.notfound, s)
